@@ -170,7 +170,7 @@ func runClientLifeCase(c cfg, seed uint64, nconn int, stopTwice, cbShutdown bool
 		keys["client|udp|datagrams"] = struct{}{}
 		// an empty datagram from the peer: if the framework takes it as the end of the connection, that close is
 		// peer-induced, so OnClose must carry an error (checked in onClose: only the remote cause is armed)
-		if uc := udpConns[0]; r.Bool() {
+		if uc := udpConns[0]; uc != nil {
 			if cs, _ := ctxState(uc); cs != nil {
 				cs.armedRemote.Store(true)
 				_, _ = udpSrv.WriteToUDP([]byte{}, uc.LocalAddr().(*net.UDPAddr))
